@@ -8,8 +8,9 @@ from hypothesis import strategies as st
 from . import msdgap
 from . import simmodel as M
 
-ALPH = list("AB0_ :;\\/\n") + ["//", "\r", "\r\n", "#", "\n#", "é", "ミ", "a", "b", ","]
-KEY_ALPH = list("AB0_ :;\\/\n") + ["//", "\r", "#", "É", "ミ"]
+# "\ufeff": a zero-width no-break space inside a key or value is content, only a leading one is a byte order mark
+ALPH = list("AB0_ :;\\/\n") + ["//", "\r", "\r\n", "#", "\n#", "é", "ミ", "a", "b", ",", "\ufeff"]
+KEY_ALPH = list("AB0_ :;\\/\n") + ["//", "\r", "#", "É", "ミ", "\ufeff"]
 KNOWN_KEYS = [
     "TITLE", "SUBTITLE", "ARTIST", "CREDIT", "MUSIC", "BANNER", "OFFSET", "BPMS", "STOPS", "FREEZES", "DELAYS",
     "BGCHANGES", "ANIMATIONS", "ATTACKS", "DISPLAYBPM", "VERSION", "WARPS", "NOTES2", "NOTES", "NOTEDATA", "FOO", "",
